@@ -43,6 +43,20 @@ func c11Gen(g *G) {
 	g.Emit("c11.run o,vl,b SF;g0+1+2;w3;c(r0/2000,r1/2000,r2/2000);w6;a2;a0;a1", "file-store")
 	g.Emit("c11.run o,o SF;fs:1;g0+1;w2;r0/2000;w3;r1/2001;w4;n2005;a0;a1", "file-store")
 	g.Emit("c11.run o,o SF;ds:120:1;g0+1;w2;r0/2001;w3;r1/2002;w4;a0;a1", "file-store")
+	// announced salts that REPEAT earlier values (the scenarios start from a stored session with salt 1000): back to
+	// the salt of the stored session after another one, A -> B -> A, the same salt announced twice in a row, the stored
+	// salt announced first, zero, negative values, the extremes of int64 — by bad_server_salt and by
+	// new_session_created, on the in-memory and on the file store. Each adopted salt is written to the store, in order.
+	for _, pre := range []string{"", "SF;"} {
+		g.Emit("c11.run o "+pre+"g0;w1;r0/2000;w2;r0/1000;w3;a0", "salt-repeats")
+		g.Emit("c11.run o,o "+pre+"g0;w1;r0/2000;w2;a0;j;n1000;g1;w3;a1", "salt-repeats")
+		g.Emit("c11.run o,o "+pre+"g0+1;w2;r0/2000;w3;r1/3000;w4;r0/2000;w5;a1;a0", "salt-repeats")
+		g.Emit("c11.run o "+pre+"n1000;g0;w1;r0/1000;w2;a0;n1000", "salt-repeats")
+		g.Emit("c11.run o,o "+pre+"n2000;n2000;g0+1;w2;r1/2000;w3;r0/2000;w4;a0;a1", "salt-repeats")
+		g.Emit("c11.run o "+pre+"g0;w1;r0/0;w2;r0/-1;w3;r0/0;w4;a0;n-1", "salt-repeats")
+		g.Emit("c11.run o,o "+pre+"n-9223372036854775808;g0+1;w2;r0/9223372036854775807;w3;c(r1/-9223372036854775808,r0/-9223372036854775808);w5;n1000;a0;a1", "salt-repeats")
+		g.Emit("c11.run o,o,o "+pre+"g0+1+2;w3;c(r0/2000,r1/2000,r2/2000);w6;c(r2/1000,r0/1000);w8;n2000;a2;r1/1000;w9;a1;a0", "salt-repeats")
+	}
 	nb := g.N(20, 400)
 	for i := 0; i < nb; i++ {
 		k := 2 + r.Intn(5)
@@ -87,6 +101,8 @@ func c11Gen(g *G) {
 		answered := map[int]bool{}
 		rot := 1 + r.Intn(4)
 		salt := 1000
+		used := []int{1000}       // salts announced so far, and the salt of the stored session
+		repeats := r.Intn(2) == 0 // this scenario announces salts that were announced before
 		for j := 0; j < rot; j++ {
 			// some accepted requests are answered before the rotation
 			for _, c := range rsPerm(r, k) {
@@ -107,11 +123,21 @@ func c11Gen(g *G) {
 			}
 			c := cand[r.Intn(len(cand))]
 			salt += 1 + r.Intn(50)
+			if repeats && r.Intn(2) == 0 {
+				// a salt announced before (the stored one included), zero, a negative one
+				salt = append(used, 0, -1-int(r.U64()%(1<<62)))[r.Intn(len(used)+2)]
+			}
+			used = append(used, salt)
 			plan = append(plan, fmt.Sprintf("r%d/%d", c, salt))
 			seen++
 			plan = append(plan, fmt.Sprintf("w%d", seen))
 			if r.Intn(5) == 0 {
-				salt += 7
+				if repeats && r.Bool() {
+					salt = used[r.Intn(len(used))]
+				} else {
+					salt += 7
+				}
+				used = append(used, salt)
 				plan = append(plan, fmt.Sprintf("n%d", salt))
 			}
 		}
@@ -127,7 +153,7 @@ func c11Gen(g *G) {
 			plan = append([]string{"SF"}, plan...)
 			store = "store=file"
 		}
-		g.Emit(fmt.Sprintf("c11.run %s %s", strings.Join(kinds, ","), strings.Join(plan, ";")), "rotations", fmt.Sprintf("rotations=%d", rot), store)
+		g.Emit(fmt.Sprintf("c11.run %s %s", strings.Join(kinds, ","), strings.Join(plan, ";")), "rotations", fmt.Sprintf("rotations=%d", rot), store, fmt.Sprintf("repeats=%v", repeats))
 	}
 }
 
